@@ -140,7 +140,26 @@ def query_encoding(rep, ex: Explorer, cls=CI):
         vw = view(p.state, csp)
         n += 1
         if EV is None or EF is None:
-            raise AnalysisError(f"{site}: emptiness of the query's correction-set families is not consulted")
+            # the result is fixed on this path although an emptiness it depends on was not consulted: it must be right for
+            # every value of the unconsulted one
+            def kind(v):
+                if v == ("list", ()):
+                    return "no constraint"
+                if isinstance(v, tuple) and v[0] == "list" and len(v[1]) == 1 and v[1][0][0] == "one" and _is_false_constraint(v[1][0][1]):
+                    return "unsatisfiable constraint"
+                return "minimum encoding"
+            got = kind(vw)
+            bad = None
+            for ev_ in ((EV,) if EV is not None else (True, False)):
+                for ef_ in ((EF,) if EF is not None else (True, False)):
+                    want = "no constraint" if ev_ else ("unsatisfiable constraint" if ef_ else "minimum encoding")
+                    if ev_ and ef_:
+                        continue  # unreachable behind the shared short cut
+                    if got != want and bad is None:
+                        bad = (ev_, ef_, want)
+            rep.check(bad is None, "C.query-edges", site, f"result without consulting {'V' if EV is None else 'F'}=∅", "the query's constraints follow the emptiness of its two correction-set families: V=∅ ⇒ none (not entailed), F=∅ ⇒ unsatisfiable (entailed), else the minimum encoding",
+                      extracted=f"{got} although for V{'=' if bad and bad[0] else '≠'}∅, F{'=' if bad and bad[1] else '≠'}∅ {bad[2] if bad else ''} is required"[:200], required="decided by V=∅ / F=∅", function=site)
+            continue
         if EV and not EF:
             ok = vw == ("list", ())
             rep.check(ok, "C.query-edges", site, "V=∅, F≠∅", "no verifying world but a falsifying one ⇒ no query constraint (the base CSP stays satisfiable: not entailed)", extracted=repr(vw)[:160], required="[]", function=site)
